@@ -92,6 +92,9 @@ pub fn small_seeds() -> Vec<Seed> {
         let mut c = EntrySpec::simple("n\u{e9}.txt".as_bytes(), 0, text(5, 20));
         c.central_extra_before.push(Extra { id: 0x5455, data: vec![1, 2, 3, 4, 5] });
         c.desc = Desc::NoSig64;
+        // file comments (the last bytes of a central record; the crate's writer never emits any)
+        a.comment = b"comment of the first entry".to_vec();
+        c.comment = "dernier commentaire \u{e9}".as_bytes().to_vec();
         let mut spec = ArchiveSpec::plain(vec![a, b, c]);
         spec.comment = b"seed comment".to_vec();
         spec.prefix = Content::Rand { seed: 77, len: 50 };
